@@ -37,7 +37,8 @@ Unit(t) == IF t = 5 THEN 4 ELSE 1               \* fuse data comes in words
 Pads == IF Full THEN 0..15 ELSE {0, 1, 8, 15}
 Targets(t) == {p \in {CHUNK * (b - 1) + 16 * r - 16 - Fixed(t) : b \in 1..MaxBlocks, r \in 1..16} : p > 0}
 DLens(t) == {p - q : p \in Targets(t), q \in {x \in Pads : x % Unit(t) = 0}}
-TourB == UNION {{With(c, <<AC(t, dl)>>) : c \in FewCfgs, dl \in DLens(t)} : t \in DataCmds}
+BCfgs == IF Full THEN FewCfgs ELSE {c \in FewCfgs : c.nkeys # 2 /\ c.enc}
+TourB == UNION {{With(c, <<AC(t, dl)>>) : c \in BCfgs, dl \in DLens(t)} : t \in DataCmds}
 \* the same with a command in front, so that the data command itself straddles block boundaries at other offsets
 TourB2 == {With(c, <<AC(3, 0), AC(t, dl), AC(14, 0)>>) : c \in TwoCfgs, t \in DataCmds, dl \in {0, 4, 12, 16, 176, 192, 196, 208, 224, 240, 256, 432, 448, 464}}
 
